@@ -391,6 +391,7 @@ type Stats struct {
 	Failures                    int
 	MultiAlertGroups            int
 	SuppressionEnded, Restarted bool
+	RepeatAcrossReload          int // repeat obligations judged across one config reload
 }
 
 const slowSlack = 30 * time.Second
